@@ -2,7 +2,6 @@
 package keyedx
 
 import (
-	"fmt"
 	"sort"
 	"time"
 )
@@ -358,52 +357,26 @@ func (m *kModel) removeEffective(t *kTimer) bool {
 	return r.present && r.remove != nil
 }
 
-// TimerSection applies one fired timer callback of the given kind and key.
-// Which of several fired timers of that kind ran is not observable, only its
-// effect (spawned an instance / deleted the key).
-func (m *kModel) TimerSection(retry bool, key int, effect bool) error {
-	pick := -1
+// TimerSection applies the critical section of a fired timer callback of record
+// r (the hook point identifies the record). Several callbacks of one record are
+// indistinguishable, but they all perform the same check on the same record.
+func (m *kModel) TimerSection(retry bool, r *kRec) {
 	for i, t := range m.fired {
-		if t.retry != retry || t.rec.key != key {
-			continue
-		}
-		eff := m.removeEffective(t)
-		if retry {
-			eff = m.retryEffective(t)
-		}
-		if eff == effect {
-			pick = i
+		if t.retry == retry && t.rec == r {
+			m.fired = append(m.fired[:i], m.fired[i+1:]...)
+			if retry && r.retry == t {
+				r.retry = nil
+			}
 			break
 		}
-		if pick < 0 && !effect {
-			pick = i // every candidate should have had an effect: apply the first, the discrepancy shows up later
-		}
 	}
-	kind := "removal"
 	if retry {
-		kind = "retry"
-	}
-	if pick < 0 {
-		if effect {
-			return fmt.Errorf("a %s-timer section for key %d took effect although the machine has no fired %s timer that may", kind, key, kind)
-		}
-		// a callback of a stopped timer (stopped after it had fired): harmless
-		return nil
-	}
-	t := m.fired[pick]
-	m.fired = append(m.fired[:pick], m.fired[pick+1:]...)
-	r := t.rec
-	if retry {
-		if r.retry == t {
-			r.retry = nil
-		}
-		if m.retryEffective(t) {
+		if m.ctxID != 0 && r.present && (r.status == stFailed || r.status == stSucceeded) {
 			m.start(r, true)
 		}
-		return nil
+		return
 	}
-	if m.removeEffective(t) {
+	if r.present && r.remove != nil {
 		m.removeNow(r)
 	}
-	return nil
 }
